@@ -21,7 +21,8 @@ def list_jobs():
     from .contracts import explainable_verify as XV, model as M
     jobs = []
     for kind in ("empty", "eq", "ehq"):
-        for method in sorted(XV.class_methods(kind) - XV.SKIP):
+        defined = XV.class_methods(kind)
+        for method in sorted(defined - XV.SKIP) + [m for m in XV.INHERITED[kind] if m not in defined]:
             jobs.append((f"explainable:{XV.CLS[kind]}.{method}", "explainable"))
     jobs.append(("avg", "model"))
     for key in M.UPDATE_SPECS:
@@ -45,8 +46,9 @@ def run_job(job_id, rlimit=3_000_000):
         from .contracts import explainable_verify as XV, model as M, model_verify as MV
         results = []
         if job_id.startswith("explainable:"):
-            results = XV.verify_all(units, only=["." + job_id.split(":", 1)[1]], engine_kw={"rlimit": rlimit})
-            results = [r for r in results if r[0]["function"].endswith("." + job_id.split(":", 1)[1])]
+            cls_, meth_ = job_id.split(":", 1)[1].split(".")
+            results = XV.verify_all(units, only=["." + meth_], engine_kw={"rlimit": rlimit})
+            results = [r for r in results if r[0]["function"].endswith("." + cls_ + "." + meth_) or r[0]["function"].endswith(f".{meth_} [as inherited by {cls_}]")]
         elif job_id == "avg":
             results = [MV.verify_avg(world, units, engine_kw={"rlimit": rlimit})]
         elif job_id.startswith("update:"):
